@@ -6,7 +6,7 @@ Generic table/trace flow (tablecheck.table_check). Family-specific:
   * the design configurations depend on the tier;
   * evidence post-processing (long sample vectors truncated, explorer counters added).
 """
-import json, os
+import json, os, time
 from tablecheck import table_check
 from vcheck import VERIF, WORK
 
@@ -39,9 +39,12 @@ def runner(prop, fam, tier, seed, replay=None):
     fam2 = dict(fam)
     fam2["design"] = DESIGN_THOROUGH if tier == "thorough" else DESIGN_QUICK
     fam2["impl_workers"] = 16 if tier == "thorough" else 6
+    t0 = time.time()
     rc = table_check(prop, fam2, tier, seed, replay)
     evp = os.path.join(VERIF, "evidence", prop + ".json")
     try:
+        if rc not in (0, 1) or os.path.getmtime(evp) < t0:
+            return rc   # no fresh evidence was written by this run (infrastructure failure)
         ev = json.load(open(evp))
         cov = ev.get("coverage", {})
         cov["samples"] = _trim(cov.get("samples", []))
